@@ -110,8 +110,12 @@ func vKind(k int, idx int) vUpSt {
 		return vUpSt{peers: []vPeerSt{{2, 0, 0}}, maxConns: 2, name: name, nilPol: true}
 	case 6: // two peers, both fine
 		return vUpSt{peers: []vPeerSt{{1, 0, 0}, {0, 0, 1}}, maxConns: 4, maxFails: 3, name: name}
-	default: // two peers, second one full
+	case 7: // two peers, second one full
 		return vUpSt{peers: []vPeerSt{{0, 0, 0}, {3, 0, 0}}, maxConns: 3, name: name, nilPol: true}
+	case 8: // two peers, second one unhealthy
+		return vUpSt{peers: []vPeerSt{{0, 0, 0}, {0, 1, 0}}, name: name, nilPol: true}
+	default: // two peers, second one passively failed (fails == max_fails exactly)
+		return vUpSt{peers: []vPeerSt{{0, 0, 0}, {1, 0, 3}}, maxFails: 3, name: name}
 	}
 }
 
@@ -463,7 +467,7 @@ func TestVerifC10(t *testing.T) {
 	if vThorough() {
 		maxSize = 4
 	}
-	nk := 8
+	nk := 10
 	count := 0
 	for size := 0; size <= maxSize; size++ {
 		total := 1
